@@ -618,6 +618,10 @@ class Gen:
     def __init__(self, rng: random.Random, view: View, pool: list[str],
                  absent: list[str]) -> None:
         self.rng = rng
+        # twins draw from a generator of their own: programs of existing
+        # seeds keep all their other choices
+        self.rng_twin = random.Random(
+            hash((tuple(pool), len(view.msgs))) & 0xffffffff)
         self.view = view
         self.pool = pool
         self.absent = absent
@@ -812,6 +816,27 @@ class Gen:
         return ['AND', [self.node(d - 1)
                         for _ in range(rng.choice([1, 2, 2, 3]))]]
 
+    _TWIN_NAME = {'BEFORE': 'SENTBEFORE', 'SENTBEFORE': 'BEFORE',
+                  'ON': 'SENTON', 'SENTON': 'ON', 'SINCE': 'SENTSINCE',
+                  'SENTSINCE': 'SINCE', 'LARGER': 'SMALLER',
+                  'SMALLER': 'LARGER', 'KEYWORD': 'UNKEYWORD',
+                  'UNKEYWORD': 'KEYWORD', 'FROM': 'TO', 'TO': 'CC',
+                  'CC': 'FROM', 'SUBJECT': 'BODY', 'BODY': 'TEXT',
+                  'TEXT': 'SUBJECT', 'BCC': 'FROM'}
+
+    def twin(self, leaf: list[Any]) -> list[Any] | None:
+        """A different key with the very same argument text (a sequence set
+        and a UID set, BEFORE and SENTBEFORE the same day, ...): keys that an
+        implementation may wrongly treat as one."""
+        t = leaf[0]
+        if t == 'SEQ':
+            return ['UID', leaf[1]]
+        if t == 'UID':
+            return ['SEQ', leaf[1]]
+        if t in ('DATE', 'SIZE', 'STR', 'KW') and leaf[1] in self._TWIN_NAME:
+            return [t, self._TWIN_NAME[leaf[1]]] + list(leaf[2:])
+        return None
+
     def program(self, maxdepth: int = 4, force: str | None = None) \
             -> dict[str, Any]:
         rng = self.rng
@@ -819,6 +844,15 @@ class Gen:
         d = rng.choice([1, 2, 2, 3, 3, 4])
         d = min(d, maxdepth if nkeys == 1 else maxdepth - 1)
         keys = [self.node(d) for _ in range(nkeys)]
+        if force is None and self.rng_twin.random() < 0.12:
+            leaves = [k for k in keys if self.twin(k) is not None]
+            if not leaves:
+                keys.append(self.leaf(self.rng_twin.choice(
+                    ['SEQSET', 'UID', 'SEQSET', 'BEFORE', 'LARGER', 'FROM'])))
+                leaves = keys[-1:]
+            tw = self.twin(self.rng_twin.choice(leaves))
+            if tw is not None:
+                keys.insert(self.rng_twin.randrange(len(keys) + 1), tw)
         if force is not None:
             keys[rng.randrange(len(keys))] = self._wrap(self.leaf(force),
                                                         min(d, 3))
